@@ -53,6 +53,18 @@ fn integral_sid(v: Option<&AV>) -> Option<u32> {
 
 /// Classify a peer message (from its bytes) into the model's input alphabet.
 pub fn classify(m: &RefMsg) -> SIn {
+    // peers may flag AMF0 commands / data as AMF3 (types 17 with a leading 0 byte, and 15)
+    if m.type_id == 17 && m.payload.first() == Some(&0) {
+        let mut n = m.clone();
+        n.type_id = 20;
+        n.payload.remove(0);
+        return classify(&n);
+    }
+    if m.type_id == 15 {
+        let mut n = m.clone();
+        n.type_id = 18;
+        return classify(&n);
+    }
     match m.type_id {
         8 => SIn::Audio { msid: m.msid, len: m.payload.len(), hash: payload_hash(&m.payload), ts: m.ts },
         9 => SIn::Video { msid: m.msid, len: m.payload.len(), hash: payload_hash(&m.payload), ts: m.ts },
@@ -441,6 +453,16 @@ impl World {
             }
         };
         // foreign-encoder choice of header format: random legal
+        let mut m = m;
+        if (m.type_id == 20 || m.type_id == 18) && ctx.ch.chance("op.arg.amf3flag", 1, 10) {
+            ctx.probe("peer.amf3_flagged_message");
+            if m.type_id == 20 {
+                m.type_id = 17;
+                m.payload.insert(0, 0);
+            } else {
+                m.type_id = 15;
+            }
+        }
         let csid = if ctx.ch.chance("op.arg.csidalt", 1, 6) { *ctx.ch.pick("op.arg.csid", &[3u32, 64, 320, 9]) } else { csid };
         let legal = self.enc.legal_formats(csid, &m);
         let opts: Vec<u8> = (0..4u8).rev().filter(|f| legal[*f as usize]).collect();
